@@ -26,7 +26,7 @@ CaseEv == /\ l <= Len(Rec) /\ Ev.ev = "case" /\ l' = l + 1 /\ case' = Ev /\ UNCH
 DoneEv == /\ l <= Len(Rec) /\ Ev.ev = "done" /\ l' = l + 1 /\ nok' = nok + 1 /\ UNCHANGED <<case, verdicts, nverdicts>>
 
 HeaderRegions == {"magic", "dictsize", "dict", "dataoff", "cksum"}
-Altered == case.kind \in {"flip", "trunc", "overwrite", "swap", "trailing", "server"}
+Altered == case.kind \in {"flip", "trunc", "overwrite", "swap", "trailing", "server", "flip+trunc"}
 OutcomeRule(e) ==
   \* C15
   IF e.res = "panic" THEN "C15 PANIC: the code panicked on untrusted input"
